@@ -81,6 +81,36 @@ def gen(rng, tier):
                            "pb": {"in": in_schema, "out": "always", "beh": "echo"}}}
         cases.append(c)
         cases.append(dict(c, check=False, raw_provs={"pa": {"in": "always", "out": out_schema, "beh": "fail"}, "pb": c["raw_provs"]["pb"]}))
+    # schema-against-schema with CHAINED dependentRequired (a -> b, b -> c, ...): which entries are reported must not
+    # depend on the order in which the map of dependencies is visited
+    for i in range(30 if tier == "thorough" else 10):
+        r = rng.fork("d%d" % i)
+        names = ["a", "b", "c", "d", "e"][: 3 + r.below(3)]
+        depreq = {names[j]: [names[j + 1]] + (["m%d" % j] if r.chance(1, 3) else []) for j in range(len(names) - 1)}
+        if r.chance(1, 2):
+            depreq[names[-1]] = [names[0]]
+        out_schema = {"t": "object", "props": {k: "string" for k in names[:1 + r.below(2)]}, "required": [names[0]]}
+        in_schema = {"t": "object", "props": {}, "required": ["r%d" % j for j in range(r.below(2))], "depreq": depreq}
+        c = {"name": "root", "def": {"imports": [], "values": [("a", ("open", "pa", ("obj", [("k", ("str", "v"))]))),
+                                                             ("b", ("open", "pb", ("sym", [("name", "a")])))]},
+             "envs": {}, "provs": {}, "model": False, "reps": reps, "check": True,
+             "raw_provs": {"pa": {"in": "always", "out": out_schema, "beh": "echo"},
+                           "pb": {"in": in_schema, "out": "always", "beh": "echo"}}}
+        cases.append(c)
+    # an unknown imported value overridden 1..5 levels deep with 2..3 sibling keys at the bottom: expression metadata
+    # (base access chains in Exprs) must be the same on every run
+    for depth in range(1, 6):
+        for nsib in (2, 3):
+            leaf = ("obj", [(k, ("num", str(j))) for j, k in enumerate(["d", "e", "f"][:nsib])])
+            e = leaf
+            for k in reversed(["a", "b", "c", "g"][: depth - 1]):
+                e = ("obj", [(k, e)])
+            envs = {"lib": {"imports": [], "values": [("cfg", ("open", "pl", ("obj", [("k", ("str", "v"))])))]},
+                    "root": {"imports": [("lib", True)], "values": [("cfg", e)]}}
+            c = G.case_from_graph(envs, "root")
+            c.update({"provs": {"pl": {"in": "always", "out": "always", "beh": "echo"}}, "model": True, "reps": reps, "check": True})
+            cases.append(c)
+            cases.append(dict(c, check=False))
     return cases
 
 
